@@ -520,3 +520,25 @@ pub fn run_cli(
         }
     })
 }
+
+/// Canonical form of an unordered listing: lines sorted; for the
+/// minimiser-to-sequence listing also the entries of every line (the property
+/// compares those lists as multisets).
+pub fn canonical_unordered(bytes: &[u8]) -> Vec<Vec<u8>> {
+    if let Ok(parsed) = parse_m2s(bytes) {
+        if !parsed.is_empty() {
+            let mut lines: Vec<Vec<u8>> = parsed
+                .into_iter()
+                .map(|(mm, mut e)| {
+                    e.sort();
+                    format!("{mm}\t{e:?}").into_bytes()
+                })
+                .collect();
+            lines.sort();
+            return lines;
+        }
+    }
+    let mut v: Vec<Vec<u8>> = bytes.split(|&c| c == b'\n').map(|l| l.to_vec()).collect();
+    v.sort();
+    v
+}
